@@ -10,6 +10,7 @@
 extern crate alloc;
 
 pub mod nd;
+pub mod stubs;
 
 pub mod c02_layout;
 pub mod c05_mirror;
@@ -17,6 +18,7 @@ pub mod c06_lexer;
 pub mod c09_grammar;
 pub mod c10_builtins;
 pub mod c15_list;
+pub mod c15_list_gen;
 pub mod c16_sched;
 pub mod c17_strings;
 pub mod c20_memory;
@@ -28,6 +30,7 @@ pub type Harness = (&'static str, fn());
 macro_rules! list {
     ($($f:ident),* $(,)?) => {
         pub const LIST: &[$crate::Harness] = &[$((stringify!($f), $f as fn())),*];
+        pub const MODULE: &str = module_path!();
     };
 }
 
@@ -39,6 +42,7 @@ pub fn all() -> Vec<Harness> {
     v.extend_from_slice(c09_grammar::LIST);
     v.extend_from_slice(c10_builtins::LIST);
     v.extend_from_slice(c15_list::LIST);
+    v.extend_from_slice(c15_list_gen::LIST);
     v.extend_from_slice(c16_sched::LIST);
     v.extend_from_slice(c17_strings::LIST);
     v.extend_from_slice(c20_memory::LIST);
